@@ -5,7 +5,7 @@ S=$1; shift
 cd /verif
 git -C /repo apply /verif/seeded/$S/patch.diff || { echo "patch does not apply"; exit 2; }
 for p in "$@"; do
-  out=$(bin/agv check $p --tier quick 2>/dev/null | grep -E "^(VIOLATION|KNOWN)" | head -3)
+  out=$(bin/agv check $p --tier quick 2>/dev/null | grep -E "^VIOLATION" | head -1)
   echo "seed=$S check=$p -> ${out:-quiet}"
 done
 git -C /repo checkout -- .
